@@ -28,8 +28,9 @@ def shape(pages, nlines, nk, workers, calls):
 
 def shapes(tier):
     if tier == "quick":
-        return [shape("AB", 2, 3, [1], 3), shape("AB", 2, 2, [1, 2], 3)]
-    return [shape("AB", 2, 3, [1], 5), shape("ABC", 2, 2, [1], 4), shape("AB", 2, 3, [1, 2], 3), shape("AB", 1, 3, [1, 2], 4)]
+        return [shape("AB", 2, 3, [1], 3), shape("AB", 2, 2, [1, 2], 3), shape("A", 3, 4, [1], 2)]
+    return [shape("AB", 2, 3, [1], 5), shape("ABC", 2, 2, [1], 4), shape("AB", 2, 3, [1, 2], 3), shape("AB", 1, 3, [1, 2], 4),
+            shape("A", 3, 4, [1], 3), shape("AB", 2, 4, [1], 3)]
 
 
 def label(s):
@@ -249,7 +250,8 @@ def schedule_clause(ctx, cfgids, pages="ABC", nlines=2, nk=2):
     traces = []
     try:
         for cfgid in cfgids:
-            D.PAR.update(cfgid=cfgid, pages=pages, nlines=nlines, nk=nk)
+            D.PAR.update(cfgid=cfgid, pages=pages, nlines=nlines, nk=nk, names=dict(D.FILE_NAMES))
+            fn = D.file_name_of
             got = {}
 
             def grab(key):
@@ -258,16 +260,16 @@ def schedule_clause(ctx, cfgids, pages="ABC", nlines=2, nk=2):
                 return f
             alone, aconf = {}, {}
             for p in pages:
-                P.run_history(root, "alone_" + p, [p], ["xml"], [-1], inspect=grab(("alone", p)))
+                P.run_history(root, "alone_" + p, [fn(p)], ["xml"], [-1], inspect=grab(("alone", p)))
                 alone[p], aconf[p] = got[("alone", p)][0][p], got[("alone", p)][1][p]
             modes = [("sequential batch", [-1], 1), ("--process-count 2", [-1], 2), ("killed after the first page and resumed", [1, -1], 1)]
             for name, sched, pc in modes:
-                tr, _ = P.run_history(root, "batch", list(pages), ["xml"], sched, process_count=pc, inspect=grab(("batch",)))
+                tr, _ = P.run_history(root, "batch", [fn(p) for p in pages], ["xml"], sched, process_count=pc, inspect=grab(("batch",)))
                 res, conf = got[("batch",)]
                 calls = []
                 for run in tr["runs"]:
                     for n, ptoks in enumerate(run["started"]):
-                        p = P.name_of(ptoks)
+                        p = D.page_of_file(P.name_of(ptoks))
                         w = run["page_workers"][n] if pc > 1 else 1
                         ok = run["exit"] in ("ok", "killed")
                         calls.append({"page": p, "worker": w, "outcome": "ok" if ok else run["exit"], "via": "parse_folder " + name,
@@ -281,6 +283,7 @@ def schedule_clause(ctx, cfgids, pages="ABC", nlines=2, nk=2):
                 traces.append({"cfgid": cfgid, "hist": [[c["worker"], c["page"]] for c in calls], "calls": calls, "mode": name})
     finally:
         P.STUB["parser_class"] = None
+        D.PAR["names"] = None
     ctx.notes["schedule_clause"] = {"page_contents": list(cfgids), "modes": ["alone", "sequential batch", "--process-count 2",
                                                                             "killed after the first page and resumed"],
                                     "tool_runs": len(traces) + len(cfgids) * len(pages)}
